@@ -1,5 +1,6 @@
 import SaphyrModel.Driver.Codec
 import SaphyrModel.Lookup
+import SaphyrModel.Pipeline
 import SaphyrModel.Encoding
 import SaphyrModel.Grammar
 import SaphyrModel.Spec.Positions
@@ -11,7 +12,7 @@ open SaphyrModel SaphyrModel.Sc SaphyrModel.Driver ProtoR ProtoE
 def kindOf (k : String) : InKind := if k == "str" then .str else .buf
 
 def scanText (kind : String) (cap : Nat) (text : List Char) : List Token × Outcome × Sc :=
-  scanAll (4 * text.length + 32) (mkSc (kindOf kind) cap text) []
+  Pipeline.scanText (kindOf kind) cap text
 
 def runTok (kind cap hex : String) : String :=
   let text := decodeHex hex
@@ -25,13 +26,15 @@ def runTok (kind cap hex : String) : String :=
 
 def mkPState := PState.init
 
-/-- scanner model then parser-state construction; `none` on a scanner-model panic -/
+/-- scanner model then parser-state construction (`Pipeline.parserOf`); an error text on a
+    scanner-model panic -/
 def parserFor (kind : String) (cap : Nat) (keep : Bool) (text : List Char) : Except String PState :=
-  let (toks, out, s') := scanText kind cap text
-  match out with
-  | .panic p => .error s!"SCANPANIC {repr p}"
-  | .done => .ok (mkPState toks none s'.mark keep)
-  | .error e => .ok (mkPState toks (some e) s'.mark keep)
+  match Pipeline.parserOf (kindOf kind) cap keep text with
+  | some p => .ok p
+  | none =>
+    match (scanText kind cap text).2.1 with
+    | .panic p => .error s!"SCANPANIC {repr p}"
+    | _ => .error "SCANPANIC"
 
 def showIter (r : List Ev × Option (SaphyrModel.Res Unit)) : String :=
   let tail := match r.2 with
